@@ -6,6 +6,11 @@ HERE = os.path.dirname(os.path.abspath(__file__))
 
 # id -> (level, technique, text, note)   (only implemented checks are listed; the rest go to not_applicable)
 CHECKS = {
+    "C05": ("model_checking",
+            "exhaustive enumeration of filter kernels, short inputs x encoder variants, the full product of predictor geometries and filter chains, and all single-fault corruptions, executed on the real decoders against independent encoders",
+            "Kernels are enumerated completely (hex pairs, run-length headers, PNG filter pairs/triples, ASCII85 groups: all 2^32 in thorough), all byte strings up to length 2/3 go through 23 independent encoder variants, the full product of predictor geometry and of chains up to length 3 is explored by the bounded choice-tree search (also through Stream::data on generated files), and every truncation/single-byte substitution of encoded buffers must give Ok or Err.",
+            "Trusted: harness encoders (self-tested). Longer data and geometries beyond Colors<=4, Columns<=5, 3 rows are not enumerated. DCT/CCITT/JBIG2/JPX outside the property.",
+            "§5 C05"),
     "C16": ("model_checking",
             "exhaustive enumeration of all short byte strings x filters (bounded input-space model checking on the real encoder/decoder) with an independent reference decoder as oracle",
             "All byte strings of length <=2 (quick) / <=3 (thorough) x 4 encodable filters are enumerated completely and run through the real encode/decode pair and an independent reference decoder; structured long buffers extend the bound. Exhaustive within the stated bound, no sampling in the deciding part.",
